@@ -16,6 +16,7 @@ import (
 
 	kit "github.com/refraction-networking/conjure/internal/verifkit"
 	pb "github.com/refraction-networking/conjure/proto"
+	"google.golang.org/protobuf/proto"
 )
 
 func c09Phantom(i int) net.IP { return net.IPv4(192, 122, byte(191+i>>8), byte(i)).To4() }
@@ -300,8 +301,9 @@ func TestVerifC09Stress(t *testing.T) {
 		for i := range msgs {
 			b := make([]byte, 32)
 			rng.Read(b)
-			msgs[i] = c09Message(b, c09Phantom(i%12), 1+i%200, pb.RegistrationSource_API)
+			msgs[i] = c09Message(b, c09Phantom(i%12), 1+i, pb.RegistrationSource_API) // destination port 1001+i identifies the registration in announcements
 		}
+		e.redis.Reset()
 		stop := make(chan struct{})
 		var aux sync.WaitGroup
 		var lookups, activations, sweeps, reloads atomic.Int64
@@ -409,6 +411,38 @@ func TestVerifC09Stress(t *testing.T) {
 			close(regChan)
 			<-done
 		}
+		// what the detector saw, per registration (phantom, port): the first message must be the New
+		// announcement - an Update (activation) must not overtake it - and New must not be repeated
+		type annKey struct {
+			ph   string
+			port uint32
+		}
+		firstOp := map[annKey]pb.StationOperations{}
+		newCount := map[annKey]int{}
+		for _, pub := range e.redis.Pubs() {
+			var m pb.StationToDetector
+			if proto.Unmarshal(pub.Payload, &m) != nil || m.GetPhantomIp() == "" {
+				continue
+			}
+			k := annKey{m.GetPhantomIp(), m.GetDstPort()}
+			if _, seen := firstOp[k]; !seen {
+				firstOp[k] = m.GetOperation()
+			}
+			if m.GetOperation() == pb.StationOperations_New {
+				newCount[k]++
+			}
+		}
+		overtaken := 0
+		for k, op := range firstOp {
+			if op != pb.StationOperations_New {
+				overtaken++
+				if overtaken <= 3 {
+					rec.Violation("announcement-order:update-before-new", "the detector was told about the activation of a registration before (or without) its announcement as new: no serial order of ingest and activation produces that",
+						map[string]interface{}{"phantom": k.ph, "port": k.port, "first_operation": op.String()})
+				}
+			}
+		}
+		rec.Count("announcements_checked", len(firstOp))
 		// end state: the two maps are in bijection
 		rd := e.rm.registeredDecoys
 		rd.m.RLock()
